@@ -78,6 +78,42 @@ CHECKS.update({
    design_ref='DESIGN.md 4 (C09)'),
 })
 
+ENUM_NOTE = ("finite space enumerated exhaustively through the path-forking executor; the selectors are unconstrained, so z3 decides "
+             "nothing for this property (stated in DESIGN.md); real textX code is executed on every path")
+CHECKS.update({
+ 'C12': dict(
+   category='exploration', engine='symx', note=ENUM_NOTE,
+   technique='exhaustive enumeration of RREL expression trees (symx selectors) through the real __repr__ / rrel.parse round trip; no solver verdict',
+   text=("Path-exhaustive over a finite tree space: every RREL expression tree up to the stated bounds (all node kinds, '*', brackets, ',', heads '^' / dots, "
+         "flags '', m, p, mp; a nesting family of depth 2) is printed by the real __repr__ methods, re-parsed by the real rrel.parse and compared structurally."),
+   design_ref='DESIGN.md 4 (C12)'),
+ 'C28': dict(
+   category='exploration', engine='symx', note=ENUM_NOTE,
+   technique='exhaustive enumeration (symx selectors) of error kind x location x reference form x layout through whole real loads; no solver verdict',
+   text=("Path-exhaustive: 4 error kinds x {string, main file, imported file} x {single reference, 1st/2nd/3rd list element} x 5 whitespace layouts = 240 real loads; "
+         "the reported file/line/col must be those of the offending token, computed independently from the file text."),
+   design_ref='DESIGN.md 4 (C28)'),
+ 'C30': dict(
+   category='model_checking', engine='symx', note=PTRUST,
+   technique='path-forking symbolic execution (symx, z3-decided branches) of the real `textx generate` click callback on symbolic argument strings (str-compatible proxies); per-path comparison with the reference argument semantics; counterexamples replayed concretely',
+   text=("Solver-steered exploration of the real argument loop: argument names (<= 2/3 chars over 'a - _') and values (<= 2/3 chars over 'a - \" ' space') are symbolic; "
+         "every z3-feasible decision pattern of startswith/strip/normalisation is one path, names are pinned by forking when hashed; the kwargs the generator receives and the exit "
+         "status (declared / undeclared / mandatory parameters) are compared with the reference. `textx check` exit codes are replayed on concrete files."),
+   design_ref='DESIGN.md 4 (C30)'),
+ 'C31': dict(
+   category='fault_enumeration', engine='symx', note=ENUM_NOTE,
+   technique='exhaustive fault enumeration (symx selectors): every write/flush/close call of the three built-in generators is made to fail once; no solver verdict',
+   text=("Every write / flush / close call made while the built-in dot and PlantUML generators export is a fault point (about 50); each is one real run with an injected OSError; "
+         "afterwards the target must not exist and a second run without overwrite must produce the complete file."),
+   design_ref='DESIGN.md 4 (C31)'),
+ 'C33': dict(
+   category='model_checking', engine='symx', note=PTRUST,
+   technique='path-forking symbolic execution (symx) of whole real loads with a failing processor whose supplied location fields are symbolic integers; z3 validity of the resulting error fields per path; counterexamples replayed concretely',
+   text=("For every processed object / match of the test models, every subset of {line, col, filename, nchar} supplied by the failing processor (values are symbolic integers: all values), "
+         "raise vs textxerror_wrap, string vs file: z3 proves per path that supplied fields are kept and missing ones equal the independently computed location of the processed text."),
+   design_ref='DESIGN.md 4 (C33)'),
+})
+
 NA = {
  'C16': "history quantifier over whole-program API calls; no data dimension to make symbolic — only enumeration of concrete call sequences would remain (DESIGN.md 5)",
  'C17': "decided by file-system I/O, glob, abspath and repository objects handed between nested real loads; only enumeration of import graphs would remain (DESIGN.md 5)",
